@@ -766,7 +766,7 @@ def transfer_genf(c: WC):
         weights[a] = wgt
 
     def suffix(w):
-        return w[len(w) - keep :] if keep else ""
+        return w[max(0, len(w) - keep) :] if keep else ""
 
     start = suffix(c.prefix)
     states = [start]
@@ -786,13 +786,23 @@ def transfer_genf(c: WC):
             trans.append((i, index[t], weights[a]))
         i += 1
     n = len(states)
-    M = sympy.zeros(n, n)
+    # solve (I - M) F = 1 over the fraction field QQ(x, k0, ...): fast and exact
+    from sympy import QQ
+    from sympy.polys.matrices import DomainMatrix
+
+    gens = [x] + [sympy.var(name) for name in c.extra_parameters]
+    K = QQ.frac_field(*gens)
+    rows = [[K.zero for _ in range(n)] for _ in range(n)]
+    for i in range(n):
+        rows[i][i] = K.one
     for i, j, wgt in trans:
-        M[i, j] += wgt
-    # F_i = 1 + sum_j M[i,j] F_j
-    sol = (sympy.eye(n) - M).LUsolve(sympy.ones(n, 1))
-    tail = sol[0] - 1 if c.strict else sol[0]
-    return sympy.simplify(_monomial(c, c.prefix) * tail)
+        rows[i][j] = rows[i][j] - K.from_sympy(wgt)
+    A = DomainMatrix(rows, (n, n), K)
+    b = DomainMatrix([[K.one] for _ in range(n)], (n, 1), K)
+    sol = A.lu_solve(b)
+    first = K.to_sympy(sol.to_Matrix()[0, 0]) if not hasattr(sol, "rep") else sol.to_Matrix()[0, 0]
+    tail = first - 1 if c.strict else first
+    return sympy.factor(_monomial(c, c.prefix) * tail)
 
 
 class BruteVer(_Settings, VerificationStrategy):
